@@ -556,93 +556,112 @@ func checkSensorReaders(c *Ctx, r *Report) {
 	lname := c.FnName(lin)
 	r.Fn(lname)
 	r.Fn(c.FnName(lsd))
-	var unavail, scanning *ssa.If
-	for _, ifi := range ifsOf(lin) {
-		cond := ifi.Cond
-		for {
-			if u, ok := cond.(*ssa.UnOp); ok && u.Op == token.NOT {
-				cond = u.X
-				continue
-			}
-			break
-		}
-		if ld, ok := cond.(*ssa.UnOp); ok && ld.Op == token.MUL {
-			switch apOf(ld.X).SelString() {
-			case fReading+".Rsp.ReadingUnavailable":
-				unavail = ifi
-			case fReading+".Rsp.ScanningEnabled":
-				scanning = ifi
-			}
-		}
-	}
 	var conv *ssa.Call
 	allInstrs(lin, false, func(in ssa.Instruction) {
 		if call, ok := in.(*ssa.Call); ok && strings.HasSuffix(calleeName(&call.Call), "ConversionFactors).ConvertReading") {
 			conv = call
 		}
 	})
-	if unavail == nil || scanning == nil || conv == nil {
+	// Decided per feasible path of Read's flattened view (the flag tests may sit in a helper,
+	// as ifs or as a switch): which of the two response flags the path decided, in which order,
+	// and what it returns.
+	type flagFact struct {
+		flag string
+		val  bool
+		at   int
+	}
+	okUnavail, okScan, okGuard, okOrder, okSendFirst := true, true, true, true, true
+	nUnavail, nScan, nConv := 0, 0, 0
+	var posU, posS token.Pos
+	sentinelNamed := func(p CPath, v ssa.Value, name string) bool {
+		ld, ok := p.Resolve(v).(*ssa.UnOp)
+		if !ok || ld.Op != token.MUL {
+			return false
+		}
+		g, ok := ld.X.(*ssa.Global)
+		return ok && g.Name() == name && c.sentinelError(g)
+	}
+	complete := conv != nil && enumPaths(lin, 1, 20000, func(p CPath) {
+		ret, isRet := p.Last().(*ssa.Return)
+		if !isRet || ret.Parent() != lin || len(ret.Results) != 2 {
+			return
+		}
+		occs := p.OccsPos()
+		sendAt := -1
+		convAt := -1
+		for i, oc := range occs {
+			if call, ok := oc.In.(*ssa.Call); ok {
+				if call.Call.IsInvoke() && call.Call.Method.Name() == "SendCommand" && sendAt < 0 {
+					sendAt = i
+				}
+				if call == conv {
+					convAt = i
+				}
+			}
+		}
+		var facts []flagFact
+		for _, bf := range p.boolFacts() {
+			ld, ok := bf.V.(*ssa.UnOp)
+			if !ok || ld.Op != token.MUL {
+				continue
+			}
+			at := lastOcc(occs, len(occs)-1, bf.If)
+			switch p.AP(ld.X).SelString() {
+			case fReading + ".Rsp.ReadingUnavailable":
+				facts = append(facts, flagFact{"unavailable", bf.True, at})
+				posU = ld.Pos()
+			case fReading + ".Rsp.ScanningEnabled":
+				facts = append(facts, flagFact{"scanning", bf.True, at})
+				posS = ld.Pos()
+			}
+		}
+		sort.Slice(facts, func(i, j int) bool { return facts[i].at < facts[j].at })
+		var sawUnavailFalse, sawScanTrue bool
+		for _, f := range facts {
+			if sendAt < 0 || f.at < sendAt {
+				okSendFirst = false
+			}
+			switch {
+			case f.flag == "unavailable" && f.val:
+				nUnavail++
+				if !sentinelNamed(p, ret.Results[1], "ErrSensorReadingUnavailable") {
+					okUnavail = false
+				}
+			case f.flag == "unavailable" && !f.val:
+				sawUnavailFalse = true
+			case f.flag == "scanning" && !f.val:
+				nScan++
+				// the unavailable flag takes precedence: it was found clear before this test
+				if !sawUnavailFalse {
+					okOrder = false
+				} else if !sentinelNamed(p, ret.Results[1], "ErrSensorScanningDisabled") {
+					okScan = false
+				}
+			case f.flag == "scanning" && f.val:
+				if !sawUnavailFalse {
+					okOrder = false
+				}
+				sawScanTrue = true
+			}
+		}
+		if convAt >= 0 {
+			nConv++
+			if !(sawUnavailFalse && sawScanTrue) {
+				okGuard = false
+			}
+			for _, f := range facts {
+				if f.at > convAt {
+					okGuard = false
+				}
+			}
+		}
+	})
+	if !complete || nUnavail == 0 || nScan == 0 || nConv == 0 {
 		r.Bad(lname+"|flags", lin.Pos(), "Read does not test both ReadingUnavailable and ScanningEnabled before converting")
 	} else {
-		sentinelOn := func(ifi *ssa.If, want bool, name string) bool {
-			// the arm where the flag has value `want` returns the named sentinel
-			cond := ifi.Cond
-			neg := false
-			for {
-				if u, ok := cond.(*ssa.UnOp); ok && u.Op == token.NOT {
-					neg = !neg
-					cond = u.X
-					continue
-				}
-				break
-			}
-			arm := ifi.Block().Succs[0]
-			if want == neg {
-				arm = ifi.Block().Succs[1]
-			}
-			ret, ok := arm.Instrs[len(arm.Instrs)-1].(*ssa.Return)
-			if !ok {
-				return false
-			}
-			ld, ok := ret.Results[1].(*ssa.UnOp)
-			if !ok {
-				return false
-			}
-			g, ok := ld.X.(*ssa.Global)
-			return ok && g.Name() == name && c.sentinelError(g)
-		}
-		r.Check(sentinelOn(unavail, true, "ErrSensorReadingUnavailable"), lname+"|unavailable → sentinel", unavail.Pos(), "ErrSensorReadingUnavailable exactly when the flag is set", "the reading-unavailable flag does not produce ErrSensorReadingUnavailable")
-		r.Check(sentinelOn(scanning, false, "ErrSensorScanningDisabled"), lname+"|scanning disabled → sentinel", scanning.Pos(), "ErrSensorScanningDisabled exactly when scanning is off", "a cleared scanning-enabled flag does not produce ErrSensorScanningDisabled")
-		// conversion behind both, unavailable tested first
-		avoid := map[edge]bool{}
-		condNeg := func(ifi *ssa.If) bool {
-			_, isNot := ifi.Cond.(*ssa.UnOp)
-			if u, ok := ifi.Cond.(*ssa.UnOp); ok && u.Op == token.MUL {
-				isNot = false
-			}
-			return isNot
-		}
-		// edge where unavailable == false
-		ue := edge{unavail.Block(), unavail.Block().Succs[1]}
-		if condNeg(unavail) {
-			ue = edge{unavail.Block(), unavail.Block().Succs[0]}
-		}
-		se := edge{scanning.Block(), scanning.Block().Succs[0]}
-		if condNeg(scanning) {
-			se = edge{scanning.Block(), scanning.Block().Succs[1]}
-		}
-		avoid[ue] = true
-		okU := !reachAvoiding(lin, nil, nil, avoid)[conv.Block()]
-		okS := !reachAvoiding(lin, nil, nil, map[edge]bool{se: true})[conv.Block()]
-		order := mustPrecede(lin, unavail, scanning)
-		// the command must have been validated first
-		var sendc *ssa.Call
-		allInstrs(lin, false, func(in ssa.Instruction) {
-			if call, ok := in.(*ssa.Call); ok && call.Call.IsInvoke() && call.Call.Method.Name() == "SendCommand" {
-				sendc = call
-			}
-		})
-		r.Check(okU && okS && order && sendc != nil && mustPrecede(lin, sendc, unavail), lname+"|conversion guarded", conv.Pos(), "conversion only when available and scanning, after the command", fmt.Sprintf("conversion reachable with unavailable-false=%v scanning-true=%v order=%v", okU, okS, order))
+		r.Check(okUnavail, lname+"|unavailable → sentinel", posU, "ErrSensorReadingUnavailable exactly when the flag is set", "the reading-unavailable flag does not produce ErrSensorReadingUnavailable")
+		r.Check(okScan, lname+"|scanning disabled → sentinel", posS, "ErrSensorScanningDisabled exactly when scanning is off", "a cleared scanning-enabled flag does not produce ErrSensorScanningDisabled")
+		r.Check(okGuard && okOrder && okSendFirst, lname+"|conversion guarded", conv.Pos(), "conversion only when available and scanning, after the command", fmt.Sprintf("conversion reachable with flags-guarded=%v unavailable-first=%v after-command=%v", okGuard, okOrder, okSendFirst))
 		// data flow: ConvertReading(parser.Parse(Rsp.Reading)) with factors of the reader
 		okFlow := false
 		if pc, ok := conv.Call.Args[1].(*ssa.Call); ok && pc.Call.IsInvoke() && pc.Call.Method.Name() == "Parse" {
